@@ -712,8 +712,10 @@ theorem split_ts (k : Candle) (p : Rat) (a b : Candle) (h : splitCandle k p = so
   repeat' (refine ite_elim (fun r => r = some (a, b) → a.ts = k.ts ∧ b.ts = k.ts) _ _ _ (fun hc => ?_) (fun hc => ?_))
   all_goals (intro h; first | (injection h with h; injection h with h1 h2; subst h1; subst h2; exact ⟨rfl, rfl⟩) | (exact absurd h (by simp)))
 
-structure EPre (e : Engine M) (sym : Nat) (t0 ts : Int) : Prop where
+structure EPre (e : Engine M) (sym : Nat) (t0 ts : Int) (P : List Candle) : Prop where
   hs : sym < e.stores.length
+  /-- the minutes stored before the one being processed -/
+  pfx : (storeOf e sym).short.dropLast = P
   spaced : Spaced t0 (storeOf e sym).short
   last : ∃ l, (storeOf e sym).short.getLast? = some l ∧ l.ts = ts
   pre : ∀ m ∈ tfsRaw e.cfg sym, PreInv m (storeOf e sym).short (longOf (storeOf e sym) m)
@@ -722,11 +724,11 @@ structure EPre (e : Engine M) (sym : Nat) (t0 ts : Int) : Prop where
 def AlignedCfg (cfg : Cfg) (sym : Nat) (t0 : Int) : Prop :=
   0 < t0 ∧ ∀ m ∈ tfsRaw cfg sym, 0 < m ∧ t0 % ((m : Int) * 60000) = 0
 
-theorem EPre.of_same {e e' : Engine M} {sym : Nat} {t0 ts : Int} (h : StoreFrame.SSame e e') (hp : EPre e sym t0 ts) :
-    EPre e' sym t0 ts := by
+theorem EPre.of_same {e e' : Engine M} {sym : Nat} {t0 ts : Int} {P : List Candle} (h : StoreFrame.SSame e e') (hp : EPre e sym t0 ts P) :
+    EPre e' sym t0 ts P := by
   obtain ⟨h1, h2⟩ := h
   have hst : storeOf e' sym = storeOf e sym := by unfold storeOf; rw [h1]
-  exact ⟨by rw [h1]; exact hp.hs, by rw [hst]; exact hp.spaced, by rw [hst]; exact hp.last, by rw [hst, h2]; exact hp.pre⟩
+  exact ⟨by rw [h1]; exact hp.hs, by rw [hst]; exact hp.pfx, by rw [hst]; exact hp.spaced, by rw [hst]; exact hp.last, by rw [hst, h2]; exact hp.pre⟩
 
 theorem updatePartialCandle_cfg_len (e : Engine M) (sym : Nat) (c : Candle) :
     (updatePartialCandle e sym c).cfg = e.cfg ∧ (updatePartialCandle e sym c).stores.length = e.stores.length := by
@@ -749,15 +751,15 @@ theorem updatePartialCandle_cfg_len (e : Engine M) (sym : Nat) (c : Candle) :
       unfold fail; split <;> exact h.1
 
 /-- PUBLISH keeps `EPre` and establishes `StoreInv` for every bigger timeframe of the symbol -/
-theorem publish_keeps_pre (e : Engine M) (sym : Nat) (c : Candle) (t0 ts : Int)
-    (hal : AlignedCfg e.cfg sym t0) (hp : EPre e sym t0 ts) (hc : c.ts = ts) :
-    EPre (updatePartialCandle e sym c) sym t0 ts ∧
+theorem publish_keeps_pre (e : Engine M) (sym : Nat) (c : Candle) (t0 ts : Int) (P : List Candle)
+    (hal : AlignedCfg e.cfg sym t0) (hp : EPre e sym t0 ts P) (hc : c.ts = ts) :
+    EPre (updatePartialCandle e sym c) sym t0 ts P ∧
     ∀ m ∈ tfsRaw e.cfg sym, StoreInv m (storeOf (updatePartialCandle e sym c) sym).short
       (longOf (storeOf (updatePartialCandle e sym c) sym) m) := by
   obtain ⟨l, hl, hlts⟩ := hp.last
   obtain ⟨r1, r2, r3⟩ := publish_establishes_inv e sym c l t0 hp.hs hal.1 hal.2 hp.spaced hl (by rw [hc, hlts]) hp.pre
   obtain ⟨hcfg, hlen⟩ := updatePartialCandle_cfg_len e sym c
-  refine ⟨⟨by rw [hlen]; exact hp.hs, r2, ⟨c, by rw [r1]; simp, hc⟩, ?_⟩, r3⟩
+  refine ⟨⟨by rw [hlen]; exact hp.hs, by rw [r1, List.dropLast_concat]; exact hp.pfx, r2, ⟨c, by rw [r1]; simp, hc⟩, ?_⟩, r3⟩
   intro m hm
   rw [hcfg] at hm
   have hne : (storeOf (updatePartialCandle e sym c) sym).short ≠ [] := by rw [r1]; simp
@@ -766,17 +768,17 @@ theorem publish_keeps_pre (e : Engine M) (sym : Nat) (c : Candle) (t0 ts : Int)
 /-- THE MATCHING LOOP KEEPS THE PRE-INVARIANT, for every strategy: any number of fills inside the minute, each with
     REPLACE LAST, PUBLISH, the order's execution and every hook and reaction it triggers, and the re-selection. -/
 theorem matchLoop_keeps_pre (fuel : Nat) : ∀ (e : Engine M) (sym : Nat) (cur : Candle) (cands : List Nat)
-    (resel : Engine M → Candle → List Nat) (st : Bool) (t0 : Int),
-    AlignedCfg e.cfg sym t0 → EPre e sym t0 cur.ts →
-    EPre (matchLoop u fuel e sym cur cands resel st).1 sym t0 cur.ts ∧
+    (resel : Engine M → Candle → List Nat) (st : Bool) (t0 : Int) (P : List Candle),
+    AlignedCfg e.cfg sym t0 → EPre e sym t0 cur.ts P →
+    EPre (matchLoop u fuel e sym cur cands resel st).1 sym t0 cur.ts P ∧
     (matchLoop u fuel e sym cur cands resel st).1.cfg = e.cfg := by
   induction fuel with
   | zero =>
-    intro e sym cur cands resel st t0 _ hp; unfold matchLoop
+    intro e sym cur cands resel st t0 P _ hp; unfold matchLoop
     refine ⟨EPre.of_same (StoreFrame.fail_ss _ _) hp, ?_⟩
     unfold fail; split <;> rfl
   | succ f ih =>
-    intro e sym cur cands resel st t0 hal hp
+    intro e sym cur cands resel st t0 P hal hp
     unfold matchLoop
     dsimp only
     split
@@ -788,7 +790,7 @@ theorem matchLoop_keeps_pre (fuel : Nat) : ∀ (e : Engine M) (sym : Nat) (cur :
           unfold fail; split <;> rfl
         · rename_i id0 _ _ a b hsplit
           obtain ⟨ha, hb⟩ := split_ts _ _ _ _ hsplit
-          obtain ⟨hp1, _⟩ := publish_keeps_pre e sym a t0 cur.ts hal hp ha
+          obtain ⟨hp1, _⟩ := publish_keeps_pre e sym a t0 cur.ts P hal hp ha
           obtain ⟨hcfg1, _⟩ := updatePartialCandle_cfg_len e sym a
           -- price, clock, execution: none of them writes the store or the configuration
           have hs2 : StoreFrame.SSame (updatePartialCandle e sym a)
@@ -803,19 +805,20 @@ theorem matchLoop_keeps_pre (fuel : Nat) : ∀ (e : Engine M) (sym : Nat) (cur :
           have hp2 := EPre.of_same hs2 hp1
           have hcfg2 := hs2.2
           rw [← hb] at hp2 ⊢
-          have := ih e4 sym b (resel e4 b) resel st t0 (by rw [hcfg2, hcfg1]; exact hal) hp2
+          have := ih e4 sym b (resel e4 b) resel st t0 P (by rw [hcfg2, hcfg1]; exact hal) hp2
           exact ⟨this.1, by rw [this.2, hcfg2, hcfg1]⟩
 
 /-- REPLACE LAST in the engine (`add_candle` of a 1m row carrying the last stored minute's timestamp) keeps `EPre` -/
-theorem replace_last_keeps_pre (e : Engine M) (sym : Nat) (c : Candle) (t0 ts : Int)
-    (hal : AlignedCfg e.cfg sym t0) (hp : EPre e sym t0 ts) (hc : c.ts = ts) :
-    EPre (addCandle e sym 1 c) sym t0 ts := by
+theorem replace_last_keeps_pre (e : Engine M) (sym : Nat) (c : Candle) (t0 ts : Int) (P : List Candle)
+    (hal : AlignedCfg e.cfg sym t0) (hp : EPre e sym t0 ts P) (hc : c.ts = ts) :
+    EPre (addCandle e sym 1 c) sym t0 ts P := by
   obtain ⟨last, hlast, hlts⟩ := hp.last
   have hts : c.ts = last.ts := by rw [hc, hlts]
   have hst := StoreFrame.storeOf_addCandle e sym 1 c hp.hs
   simp only [if_true] at hst
   have hsp := hp.spaced
   have hpre := hp.pre
+  have hpfx := hp.pfx
   generalize hS : storeOf e sym = S at *
   have hne : S.short ≠ [] := by intro h; rw [h] at hlast; simp at hlast
   have hpos : 0 < S.short.length := List.length_pos_iff.mpr hne
@@ -833,7 +836,8 @@ theorem replace_last_keeps_pre (e : Engine M) (sym : Nat) (c : Candle) (t0 ts : 
     simp only [hts, hl0, if_false, hlast, hngt, if_true]
   rw [hadd] at hst
   have hlen' : (S.short.dropLast ++ [c]).length = S.short.length := by simp; omega
-  refine ⟨by rw [StoreFrame.stores_length_addCandle]; exact hp.hs, ?_, ?_, ?_⟩
+  refine ⟨by rw [StoreFrame.stores_length_addCandle]; exact hp.hs, ?_, ?_, ?_, ?_⟩
+  · rw [hst]; show (S.short.dropLast ++ [c]).dropLast = P; rw [List.dropLast_concat]; exact hpfx
   · rw [hst]
     intro j hj
     by_cases hjl : j < S.short.dropLast.length
@@ -857,28 +861,28 @@ theorem replace_last_keeps_pre (e : Engine M) (sym : Nat) (c : Candle) (t0 ts : 
     exact pre_of_replace_last m S.short (longOf S m) c last (hal.2 m hm').1 hlast hts (hpre m hm')
 
 /-- the tail of a triggered liquidation check: publish the last stored minute, execute the forced close -/
-theorem liq_tail_keeps_pre (e e2 : Engine M) (sym id : Nat) (last : Candle) (t0 ts : Int)
-    (hal : AlignedCfg e.cfg sym t0) (hp : EPre e sym t0 ts) (hs1 : StoreFrame.SSame e e2)
+theorem liq_tail_keeps_pre (e e2 : Engine M) (sym id : Nat) (last : Candle) (t0 ts : Int) (P : List Candle)
+    (hal : AlignedCfg e.cfg sym t0) (hp : EPre e sym t0 ts P) (hs1 : StoreFrame.SSame e e2)
     (hl : (storeOf e2 sym).short.getLast? = some last) :
-    EPre (executeOrder u (updatePartialCandle e2 sym last) id) sym t0 ts ∧
+    EPre (executeOrder u (updatePartialCandle e2 sym last) id) sym t0 ts P ∧
     (executeOrder u (updatePartialCandle e2 sym last) id).cfg = e.cfg := by
-  have hp2 : EPre e2 sym t0 ts := EPre.of_same hs1 hp
+  have hp2 : EPre e2 sym t0 ts P := EPre.of_same hs1 hp
   obtain ⟨l0, hl0, hl0ts⟩ := hp2.last
   have hlast_eq : last = l0 := by rw [hl] at hl0; injection hl0
   have hal2 : AlignedCfg e2.cfg sym t0 := by rw [hs1.2]; exact hal
-  obtain ⟨hp3, _⟩ := publish_keeps_pre e2 sym last t0 ts hal2 hp2 (by rw [hlast_eq]; exact hl0ts)
+  obtain ⟨hp3, _⟩ := publish_keeps_pre e2 sym last t0 ts P hal2 hp2 (by rw [hlast_eq]; exact hl0ts)
   obtain ⟨hcfg3, _⟩ := updatePartialCandle_cfg_len e2 sym last
   have hs4 := StoreFrame.executeOrder_ss u (updatePartialCandle e2 sym last) id
   exact ⟨EPre.of_same hs4 hp3, by rw [hs4.2, hcfg3, hs1.2]⟩
 
 /-- the liquidation check keeps `EPre`: it does nothing, or fails, or publishes the last stored minute and executes
     the forced close (whose hooks, whatever the strategy, do not write the store) -/
-theorem checkLiquidation_keeps_pre (e : Engine M) (sym : Nat) (c : Candle) (t0 ts : Int)
-    (hal : AlignedCfg e.cfg sym t0) (hp : EPre e sym t0 ts) :
-    EPre (checkLiquidation u e sym c) sym t0 ts ∧ (checkLiquidation u e sym c).cfg = e.cfg := by
+theorem checkLiquidation_keeps_pre (e : Engine M) (sym : Nat) (c : Candle) (t0 ts : Int) (P : List Candle)
+    (hal : AlignedCfg e.cfg sym t0) (hp : EPre e sym t0 ts P) :
+    EPre (checkLiquidation u e sym c) sym t0 ts P ∧ (checkLiquidation u e sym c).cfg = e.cfg := by
   unfold checkLiquidation
   dsimp only
-  have hfail : ∀ (x : Engine M) (k : Err), StoreFrame.SSame e x → EPre (fail x k) sym t0 ts ∧ (fail x k).cfg = e.cfg := by
+  have hfail : ∀ (x : Engine M) (k : Err), StoreFrame.SSame e x → EPre (fail x k) sym t0 ts P ∧ (fail x k).cfg = e.cfg := by
     intro x k hx
     have h2 := StoreFrame.SSame.trans hx (StoreFrame.fail_ss x k)
     exact ⟨EPre.of_same h2 hp, h2.2⟩
@@ -887,22 +891,22 @@ theorem checkLiquidation_keeps_pre (e : Engine M) (sym : Nat) (c : Candle) (t0 t
     | exact ⟨hp, rfl⟩
     | (exact hfail _ _ ⟨rfl, rfl⟩)
     | (rename_i w' h _ last hl
-       exact liq_tail_keeps_pre u e _ sym _ last t0 ts hal hp ⟨rfl, rfl⟩ hl)
+       exact liq_tail_keeps_pre u e _ sym _ last t0 ts P hal hp ⟨rfl, rfl⟩ hl)
     | (rename_i w' h _ hl
        exact hfail _ _ ⟨rfl, rfl⟩)
 
 /-- A WHOLE MINUTE of the normal simulator's matching keeps the pre-invariant, for every strategy: the matching loop,
     REPLACE LAST with the whole minute, the price update and the liquidation check -/
-theorem simulateMinute_keeps_pre (fuel : Nat) (e : Engine M) (sym : Nat) (real : Candle) (t0 : Int)
-    (hal : AlignedCfg e.cfg sym t0) (hp : EPre e sym t0 real.ts) :
-    EPre (simulateMinute u fuel e sym real) sym t0 real.ts ∧ (simulateMinute u fuel e sym real).cfg = e.cfg := by
+theorem simulateMinute_keeps_pre (fuel : Nat) (e : Engine M) (sym : Nat) (real : Candle) (t0 : Int) (P : List Candle)
+    (hal : AlignedCfg e.cfg sym t0) (hp : EPre e sym t0 real.ts P) :
+    EPre (simulateMinute u fuel e sym real) sym t0 real.ts P ∧ (simulateMinute u fuel e sym real).cfg = e.cfg := by
   unfold simulateMinute
   dsimp only
   split
   · exact ⟨hp, rfl⟩
   · have h := matchLoop_keeps_pre u fuel e sym real
       ((fun (e : Engine M) (c : Candle) => if (executingOrders e sym c).length > 1 then sortExecutionOrders e (executingOrders e sym c) [c] else executingOrders e sym c) e real)
-      (fun (e : Engine M) (c : Candle) => if (executingOrders e sym c).length > 1 then sortExecutionOrders e (executingOrders e sym c) [c] else executingOrders e sym c) false t0 hal hp
+      (fun (e : Engine M) (c : Candle) => if (executingOrders e sym c).length > 1 then sortExecutionOrders e (executingOrders e sym c) [c] else executingOrders e sym c) false t0 P hal hp
     revert h
     generalize matchLoop u fuel e sym real _ _ false = p
     intro h
@@ -912,11 +916,11 @@ theorem simulateMinute_keeps_pre (fuel : Nat) (e : Engine M) (sym : Nat) (real :
     split
     · exact ⟨hp1, hcfg1⟩
     · have hal1 : AlignedCfg e1.cfg sym t0 := by rw [hcfg1]; exact hal
-      have hp2 := replace_last_keeps_pre e1 sym real t0 real.ts hal1 hp1 rfl
+      have hp2 := replace_last_keeps_pre e1 sym real t0 real.ts P hal1 hp1 rfl
       have hs3 : StoreFrame.SSame (addCandle e1 sym 1 real) (setCurrentPrice (addCandle e1 sym 1 real) sym real.c) := ⟨rfl, rfl⟩
       have hp3 := EPre.of_same hs3 hp2
       have hal3 : AlignedCfg (setCurrentPrice (addCandle e1 sym 1 real) sym real.c).cfg sym t0 := hal1
-      obtain ⟨hp4, hcfg4⟩ := checkLiquidation_keeps_pre u _ sym real t0 real.ts hal3 hp3
+      obtain ⟨hp4, hcfg4⟩ := checkLiquidation_keeps_pre u _ sym real t0 real.ts P hal3 hp3
       exact ⟨hp4, by rw [hcfg4]; exact hcfg1⟩
 
 end run
